@@ -854,4 +854,42 @@ theorem fast_mapper_example :
     ∧ docHas "n_n" (fun _ => true) (fastSerialize exFastMapEnv [] [] false false exFastMapOuter exFastMapX) = false := by
   decide
 
+/-- **C10 (fast serialization WITH one simple mapper per class, at any depth), proved part**: for
+    every class tree of the region `fsafeCls` in which every class has a simple mapper that is injective
+    on its fields (`fmsafeD`: classes with mappers directly in fields, in Array / Deque / Set / Tuple[X]
+    items and in Optionals; mapper-free inside Map values and positional items) and every instance of
+    the stored shape, the installed `serialize()` returns the regular document of the identically
+    declared mapper-free class tree with the keys of every class-level object renamed by that
+    class's own mapper (`relV`) -/
+theorem fast_mapper_full_equiv_partial (O : Oracles) (JK : List String) (Mp : MapEnv) (cls : FieldDecl) (x : PyVal)
+    (hs : fsafeCls [] cls = true) (hw : fwf O cls x = true) (hm : fmsafeD Mp cls = true) :
+    fastSerialize Mp [] JK false false cls x
+      = bindE (serialize O cls (canonV cls x)) fun j => .ok (relV Mp cls j) :=
+  c10_fast_full_mapper O JK Mp cls x hs hw hm
+
+/-- non-vacuity: a rename dict on the outer class, TO_CAMELCASE on the nested one (also inside an
+    Array and an Optional): each level is written with its own keys -/
+def exFastFullInner : FieldDecl := mkCls "In" ["first_name"] [("first_name", str0), ("age", .integer {})]
+def exFastFullOuter : FieldDecl :=
+  mkCls "Out" ["the_one"] [("the_one", exFastFullInner), ("all_of", .seqOf .list exFastFullInner {}),
+                           ("maybe", .anyOf [exFastFullInner, .noneF]), ("n_n", .integer {})]
+def exFastFullEnv : MapEnv := fun n =>
+  if n == "Out" then .rename [("the_one", "one"), ("n_n", "count")] else if n == "In" then .camel else .none
+def exFastFullX : PyVal :=
+  .inst "Out" [("the_one", .inst "In" [("first_name", .str "a")]),
+               ("all_of", .list [.inst "In" [("first_name", .str "b"), ("age", .int 1)]]), ("n_n", .int 2)]
+def innerHas (k inner : String) (r : R PyVal) : Bool :=
+  match r with
+  | .ok (.dict kvs) => kvs.any fun kv => (match kv.1, kv.2 with
+      | .str s, .dict ikvs => s == k && ikvs.any (fun p => match p.1 with | .str t => t == inner | _ => false)
+      | _, _ => false)
+  | _ => false
+theorem fast_mapper_full_example :
+    fsafeCls [] exFastFullOuter = true ∧ fwf exO exFastFullOuter exFastFullX = true
+    ∧ fmsafeD exFastFullEnv exFastFullOuter = true
+    ∧ docHas "count" (fun _ => true) (fastSerialize exFastFullEnv [] [] false false exFastFullOuter exFastFullX) = true
+    ∧ innerHas "one" "firstName" (fastSerialize exFastFullEnv [] [] false false exFastFullOuter exFastFullX) = true
+    ∧ innerHas "one" "first_name" (fastSerialize exFastFullEnv [] [] false false exFastFullOuter exFastFullX) = false := by
+  decide
+
 end Typedpy.C10
